@@ -30,6 +30,8 @@ TrNew ==
   /\ IsEv("BNew")
   /\ obj' = Put(obj, Ev.id, NewBF(Ev.cap, Ev.k))
   /\ gh' = Put(gh, Ev.id, [ins |-> {}, pure |-> TRUE])
+  \* the bit array is the requested size rounded up to whole 64-bit words
+  /\ ((On("C09") \/ On("C18")) /\ "nbits" \in DOMAIN Ev) => Ev.cap = 64 * ((Ev.nbits + 63) \div 64)
 
 After(i) == On("C09") => (Ev.used = obj'[i].nset /\ CountOK(obj'[i]) /\ NoFalseNeg(obj'[i], gh'[i].ins))
 
